@@ -1003,3 +1003,101 @@ Proof. vm_compute. repeat split; reflexivity. Qed.
 Example ex_first_outcome :
   exists c, get (run [Call KTwoWay; Answer 1]) 0 = Some c /\ c_fires c = [OResult].
 Proof. eexists. split; vm_compute; reflexivity. Qed.
+
+(* ---------- what an answer / an error / a Violation / a send failure DOES (the functional half of the property):
+   the request that is pending under that id fires with exactly that outcome, leaves the table, and nothing else changes *)
+Definition resolves (s s' : st) (h : nat) (rid : Z) (o : outcome) : Prop :=
+  (exists c c', get s h = Some c /\ c_fires c = [] /\ c_rid c = rid /\ get s' h = Some c' /\ c_fires c' = [o] /\ c_active c' = false) /\
+  ~ In rid (map fst (table s')) /\
+  (forall h2, h2 <> h -> get s' h2 = get s h2) /\
+  (forall e, In e (table s') <-> In e (table s) /\ fst e <> rid) /\
+  evq s' = evq s /\ disconnected s' = disconnected s /\ raised s' = raised s /\
+  List.length (calls s') = List.length (calls s).
+
+Lemma pending_entry s rid h : Inv0 s -> In (rid, h) (table s) ->
+  exists c, get s h = Some c /\ c_rid c = rid /\ c_tracked c = true /\ c_active c = true /\ c_fires c = [] /\
+            tbl_has rid (table s) = true.
+Proof.
+  intros I H. destruct (I_tbl _ I _ _ H) as [c [G [R [T A]]]]. exists c. repeat split; auto.
+  - destruct (I_calls _ I _ _ G) as [_ [E _]]. auto.
+  - apply tbl_has_true. apply in_map_iff. exists (rid, h). auto.
+Qed.
+
+Lemma fire_resolves s h c o : get s h = Some c -> c_fires c = [] ->
+  resolves s (fire (set_table s (tbl_del (c_rid c) (table s))) h o) h (c_rid c) o.
+Proof.
+  intros G F. unfold resolves. split; [|split; [|split; [|split]]].
+  - exists c, (deactivate_and_fire o c). repeat split; auto.
+    + rewrite get_fire, get_set_table, Nat.eqb_refl, G. reflexivity.
+    + cbn. rewrite F. reflexivity.
+  - cbn [fire set_calls table set_table]. intros X. apply in_map_iff in X as [e [E1 E2]]. apply tbl_del_in in E2. tauto.
+  - intros h2 N. rewrite get_fire, get_set_table. destruct (Nat.eqb_spec h h2); [congruence|reflexivity].
+  - intros e. cbn [fire set_calls table set_table]. apply tbl_del_in.
+  - cbn. rewrite length_upd. repeat split; reflexivity.
+Qed.
+
+Lemma complete_pending s rid h : Inv0 s -> In (rid, h) (table s) -> resolves s (complete_closed s h) h rid OResult.
+Proof.
+  intros I H. destruct (pending_entry _ _ _ I H) as [c [G [R [T [A [F B]]]]]].
+  unfold complete_closed. rewrite G, T. subst rid. rewrite B, A. apply fire_resolves; assumption.
+Qed.
+
+Lemma fail_pending s rid h o : Inv0 s -> In (rid, h) (table s) -> resolves s (fail_closed s h o) h rid o.
+Proof.
+  intros I H. destruct (pending_entry _ _ _ I H) as [c [G [R [T [A [F B]]]]]].
+  unfold fail_closed. rewrite G, A, T. subst rid. rewrite B. apply fire_resolves; assumption.
+Qed.
+
+(* an answer sequence for a pending request id fires that request with the method's result *)
+Theorem answer_fires_result : forall ops rid h, tbl_find rid (table (run ops)) = Some h ->
+  resolves (run ops) (step (run ops) (Answer rid)) h rid OResult.
+Proof.
+  intros ops rid h H. cbn [step]. rewrite H, complete_step_closed.
+  apply complete_pending; [apply (inv_run ops)|apply tbl_find_some; exact H].
+Qed.
+
+(* an error sequence fires it with the remote failure *)
+Theorem error_fires_remote_failure : forall ops rid h, tbl_find rid (table (run ops)) = Some h ->
+  resolves (run ops) (step (run ops) (Error rid)) h rid ORemoteError.
+Proof.
+  intros ops rid h H. cbn [step]. rewrite H, fail_step_closed.
+  apply fail_pending; [apply (inv_run ops)|apply tbl_find_some; exact H].
+Qed.
+
+(* a Violation while its answer is being received fires it with the Violation *)
+Theorem violation_fires_violation : forall ops rid h, tbl_find rid (table (run ops)) = Some h ->
+  resolves (run ops) (step (run ops) (AnswerViolation rid)) h rid OViolation.
+Proof.
+  intros ops rid h H. cbn [step]. rewrite H, fail_step_closed.
+  apply fail_pending; [apply (inv_run ops)|apply tbl_find_some; exact H].
+Qed.
+
+(* complete() / fail(why) on a pending request object (late answer, serialization failure of the arguments, ...) fires it
+   with exactly that outcome *)
+Theorem fail_on_pending_fires : forall ops rid h o, In (rid, h) (table (run ops)) ->
+  resolves (run ops) (step (run ops) (Fail h o)) h rid o /\
+  resolves (run ops) (step (run ops) (Complete h)) h rid OResult.
+Proof.
+  intros ops rid h o H. cbn [step]. rewrite fail_step_closed, complete_step_closed.
+  split; [apply fail_pending|apply complete_pending]; auto; apply (inv_run ops).
+Qed.
+
+(* every registered callRemote that has not fired IS reachable by these: its id is in the table under its handle *)
+Theorem pending_is_in_table : forall ops h c, get (run ops) h = Some c -> c_twoway c = true -> c_fires c = [] ->
+  In (c_rid c, h) (table (run ops)) /\ tbl_find (c_rid c) (table (run ops)) = Some h.
+Proof.
+  intros ops h c G T F. destruct (inv_run ops) as [I _].
+  destruct (I_calls _ I _ _ G) as [_ [_ [K3 [_ K5]]]].
+  assert (A : c_active c = true).
+  { destruct (c_active c) eqn:A; [reflexivity|]. specialize (K3 eq_refl T). rewrite F in K3. discriminate. }
+  pose proof (I_pend _ I _ _ G (K5 T A) A) as P. split; [exact P|].
+  destruct (tbl_find (c_rid c) (table (run ops))) as [h'|] eqn:E.
+  - apply tbl_find_some in E. f_equal.
+    destruct (I_tbl _ I _ _ E) as [c' [G' [R' [T' _]]]].
+    symmetry. apply (I_uniq _ I h h' c c' G G' (K5 T A) T'). congruence.
+  - apply tbl_find_none in E. exfalso. apply E. apply in_map_iff. exists (c_rid c, h). auto.
+Qed.
+
+Example resolves_inhabited :
+  resolves (run [Call KTwoWay; Call KTwoWay]) (step (run [Call KTwoWay; Call KTwoWay]) (Answer 2)) 1%nat 2 OResult.
+Proof. apply (answer_fires_result [Call KTwoWay; Call KTwoWay] 2 1%nat). reflexivity. Qed.
